@@ -10,6 +10,7 @@
  *   VERIF_PROD_INI="<compiled-in path>=<file>"           production mode: the library's fopen of its COMPILED-IN configuration path is served from <file>, and the
  *                                                        test hook snoopy_configuration_preinit_enableAltConfigFileParsing is shadowed by a no-op, so that the
  *                                                        production branch of the ctor runs (put this library BEFORE the library under test for that)
+ *   VERIF_UTMP=<file>                                    utmpname(<file>) at start-up
  * Every socket the library connects is logged with its close-on-exec flag:   cloexec<TAB>callidx<TAB>connect<TAB><0|1>
  * Injected faults are logged:   fault<TAB>callidx<TAB>fn<TAB>k<TAB>errno
  * Only calls whose return address lies in the library under test are counted, so the harness's own I/O is never disturbed. */
@@ -61,6 +62,10 @@ void snoopy_configuration_preinit_enableAltConfigFileParsing(char *const path) {
     void (*real)(char *const) = (void (*)(char *const)) dlsym(RTLD_NEXT, "snoopy_configuration_preinit_enableAltConfigFileParsing");
     if (real) real(path);
 }
+
+/* VERIF_UTMP=<file>: the process's utmp file (utmpname), so that terminal look-ups run against a file the harness controls */
+#include <utmp.h>
+__attribute__((constructor)) static void set_utmp(void) { const char *u = getenv("VERIF_UTMP"); if (u && *u) utmpname(u); }
 
 static int fn_index(const char *n) { for (int i = 0; i < NFN; i++) if (!strcmp(FN[i], n)) return i; return -1; }
 
